@@ -18,6 +18,15 @@ def fprefix(f):
     return FILE_LETTERS[f - 1]
 
 
+def go_pkg(prog, f):
+    """Go package (last path element) thriftgo generates for file number f of a program from to_program"""
+    fl = prog["files"][f - 1]
+    for ns in fl.get("namespaces", []):
+        if ns["lang"] == "go":
+            return ns["name"].replace(".", "/")
+    return fprefix(f)
+
+
 def dname(G, d):
     return PREFIX[G["defs"][d - 1]["k"]] + str(d)
 
@@ -93,6 +102,8 @@ def to_program(G, namespaces=False):
             fields = [idl.F(1, "optional", {"n": "i32"}, "n")]
             for j, t in enumerate(d["ty"]):
                 fields.append(idl.F(j + 2, "optional", ty(G, t, f), "f%d" % (j + 1)))
+            for j, c in enumerate(d["cv"]):
+                fields.append(idl.F(90 + j, "optional", {"n": "string"}, "dv%d" % (j + 1), default={"id": qname(G, c, f)}))
             out.append({"k": k, "name": name, "fields": fields})
             if d["pres"] == "c":
                 pres.add((fname(f), name))
@@ -204,7 +215,7 @@ def tree_result(G, t, pre=None):
             for d in fs["defs"]:
                 presig[(fs["path"], d["name"])] = d["k"] + "|" + d["sig"]
             for s in fs["svcs"]:
-                for n, sg in zip(s["fns"], s["sigs"]):
+                for n, sg in zip(s["fns"], s.get("sigs") or [None] * len(s["fns"])):
                     presig[(fs["path"], s["name"], n)] = sg
     for fs in t["files"] or []:
         f = fileno.get(fs["path"])
@@ -232,7 +243,7 @@ def tree_result(G, t, pre=None):
                 continue
             kept.append(i)
             names = {fn["name"] for fn in G["defs"][i - 1]["fns"]}
-            for n, sg in zip(s["fns"], s["sigs"]):
+            for n, sg in zip(s["fns"], s.get("sigs") or [None] * len(s["fns"])):
                 if n not in names:
                     problems.append("alien function %s.%s" % (s["name"], n))
                     continue
@@ -248,15 +259,6 @@ def tree_result(G, t, pre=None):
     return {"kept": sorted(set(kept)), "fns": fns, "inc": inc, "ext": ext}, problems, changed
 
 
-def strip(t):
-    """comparable image of a tree summary (files in path order)"""
-    if t is None or t.get("files") is None:
-        return None
-    return sorted(([fs["path"], fs["includes"], [[d["k"], d["name"], d["sig"]] for d in fs["defs"]],
-                    [[s["name"], s["ext"], s["fns"], s["sigs"]] for s in fs["svcs"]]] for fs in t["files"]),
-                  key=lambda x: x[0])
-
-
 def inproc_result(G, o):
     """harness observation of `inproc trim` -> (R, why list)."""
     why = []
@@ -268,36 +270,33 @@ def inproc_result(G, o):
         return R, ["panic: " + t1["panic"][:300]]
     if t1.get("err"):
         # the AST is still summarised, so that the kept sets can be shown, but the run failed
-        r, _, _ = tree_result(G, t1, o.get("pre")) if t1.get("files") else (R, [], [])
-        R.update(r)
+        if t1.get("files"):
+            r, _, _ = tree_result(G, t1)
+            R.update(r)
         return R, ["TrimAST error: " + t1["err"][:300]]
-    r, problems, changed = tree_result(G, t1, o.get("pre"))
+    r, problems, _ = tree_result(G, t1)
     R.update(r)
     why += problems
     if t1.get("stale"):
         why.append("trimmed AST has references that do not resolve: " + "; ".join(t1["stale"][:3]))
     if o.get("dump_err"):
         why.append("dump: " + o["dump_err"][:200])
-    rp = o.get("rp")
-    if rp is None:
-        why.append("no re-parse")
-    elif rp.get("err") or rp.get("panic"):
-        why.append("dumped IDL rejected: " + (rp.get("err") or rp.get("panic"))[:300])
+    elif o.get("rp_err"):
+        why.append("dumped IDL rejected: " + o["rp_err"][:300])
     else:
-        if rp.get("stale"):
-            why.append("re-parsed AST inconsistent: " + "; ".join(rp["stale"][:3]))
-        if strip(rp) != strip(t1):
+        if o.get("rp_stale"):
+            why.append("re-parsed AST inconsistent: " + "; ".join(o["rp_stale"][:3]))
+        if not o.get("rp_same"):
             why.append("dump + parse of the trimmed AST differs from the trimmed AST")
     R["ok"] = not why
-    if changed:
+    if o.get("changed"):
         R["same"] = False
-        why.append("definitions changed: " + ", ".join(changed[:4]))
+        why.append("definitions changed: " + ", ".join(o["changed"][:4]))
     if R["ok"]:
-        t2 = o.get("t2")
-        if t2 is None or t2.get("err") or t2.get("panic"):
+        if o.get("t2_err"):
             R["idem"] = False
-            why.append("second trim failed: %s" % ((t2 or {}).get("err") or (t2 or {}).get("panic") or "missing")[:300])
-        elif strip(t2) != strip(rp) or not o.get("same_dump") or t2.get("stale"):
+            why.append("second trim failed: %s" % o["t2_err"][:300])
+        elif not o.get("t2_same") or not o.get("same_dump"):
             R["idem"] = False
             why.append("second trim changed the program")
     return R, why
